@@ -513,6 +513,10 @@ func (c *Conn) SetDeadline(t time.Time) error {
 	return nil
 }
 func (c *Conn) SetReadDeadline(t time.Time) error {
+	if c.YieldSetDeadline && !c.sim.Free {
+		// optional scheduling point between two transport calls of one loop iteration
+		c.sim.ParkL("dl:"+c.Name, "set-read-deadline", c.locker(), always)
+	}
 	c.lock()
 	c.rdl = t
 	c.unlock()
